@@ -2,6 +2,7 @@ package h
 
 import (
 	"bytes"
+	"encoding/json"
 	"fmt"
 	"os"
 	"reflect"
@@ -26,6 +27,7 @@ type KVWorld struct {
 	H     []*rosmar.Bucket
 	A, B  []*rosmar.Collection
 	H2    *rosmar.Bucket
+	HB    *rosmar.Bucket // a further handle on b1 that never opens a collection: bucket-level operations go through it
 	A2    *rosmar.Collection
 	Feeds []*FeedRec // [0]=A via h0 (collection API) [1]=A via h1 (bucket API) [2]=B [3]=b2.A
 	ExtraBackfills bool
@@ -59,6 +61,9 @@ func NewKVWorld(cfg Config) *KVWorld {
 		w.A = append(w.A, coll(b, NameA))
 		w.B = append(w.B, coll(b, NameB))
 	}
+	hb, err := rosmar.OpenBucket(BucketURL(cfg, "b1"), "b1", rosmar.CreateOrOpen)
+	must(err)
+	w.HB = hb
 	f0, err := StartLiveFeed(w.A[0], "fA0")
 	must(err)
 	w.Feeds = append(w.Feeds, f0)
@@ -263,3 +268,100 @@ func (w *KVWorld) Observe() KVObs {
 }
 
 func NowSecs() uint32 { return uint32(vrt.NowNanos() / int64(time.Second)) }
+
+// ReopenDifferential (on-disk only): close every handle of b1 (its last Close shuts the store down),
+// open it again in the same process, and compare everything a client can learn about the subject
+// collection - every row column, the high-water marks, every read API on k and j through two fresh
+// handles, a Dump backfill - with the observation taken before the close. No expected value is
+// hand-written: the state reached from the initial state is compared with itself seen from elsewhere.
+// It consumes the world (the old handles are closed); the caller discards the world afterwards.
+func (w *KVWorld) ReopenDifferential(opName string, post KVObs) (vs []Violation) {
+	if !w.Cfg.Disk {
+		return nil
+	}
+	bad := func(props []string, field, detail string) {
+		for _, p := range props {
+			vs = append(vs, Violation{Prop: p, Op: opName, Pre: "reopen", Field: field, Detail: detail})
+		}
+	}
+	data := []string{"C13", "C01"}
+	for _, f := range w.Feeds {
+		if f.Name != "fA2" {
+			f.CloseTerm()
+		}
+	}
+	vrt.Quiesce()
+	for _, h := range w.H {
+		h.Close(ctx)
+	}
+	w.HB.Close(ctx)
+	vrt.Quiesce()
+	var hs []*rosmar.Bucket
+	for i := 0; i < 2; i++ {
+		b, err := rosmar.OpenBucket(BucketURL(w.Cfg, "b1"), "b1", rosmar.ReOpenExisting)
+		if err != nil {
+			bad([]string{"C13"}, "reopen", "ReOpenExisting after the last Close failed: "+err.Error())
+			if len(hs) == 0 {
+				// leave the world closable
+				b, err = rosmar.OpenBucket(BucketURL(w.Cfg, "b1"), "b1", rosmar.CreateOrOpen)
+				must(err)
+			} else {
+				b = hs[0]
+			}
+		}
+		hs = append(hs, b)
+	}
+	w.H = hs
+	w.HB = hs[0]
+	w.A, w.B = nil, nil
+	for _, b := range w.H {
+		w.A = append(w.A, coll(b, NameA))
+		w.B = append(w.B, coll(b, NameB))
+	}
+	if len(vs) > 0 {
+		return vs
+	}
+	d, err := rosmar.VerifDumpAll(w.H[0])
+	must(err)
+	if got, want := printRows(d, ""), printRows(post.Dump, ""); got != want {
+		bad(data, "rows", fmt.Sprintf("stored rows differ after close + reopen:\nbefore:\n%safter:\n%s", want, got))
+	}
+	if d.BucketLastCas != post.Dump.BucketLastCas || !reflect.DeepEqual(d.Collections, post.Dump.Collections) {
+		bad(data, "marks", fmt.Sprintf("high-water marks / collection table differ after close + reopen: before bucket=%d %+v, after bucket=%d %+v", post.Dump.BucketLastCas, post.Dump.Collections, d.BucketLastCas, d.Collections))
+	}
+	a0, a1 := w.A[0], w.A[1]
+	for _, kk := range []struct {
+		key  string
+		was  DocObs
+		a, b *rosmar.Collection
+	}{{"k", post.K, a0, a1}, {"j", post.J, a1, a0}} {
+		now := ObserveDoc(kk.a, kk.b, kk.key)
+		now.Row, now.Backfill = nil, nil
+		was := kk.was
+		was.Row, was.Backfill = nil, nil
+		if jsonOf(now) != jsonOf(was) {
+			bad(data, "reads", fmt.Sprintf("reads of %s differ after close + reopen:\nbefore: %s\nafter:  %s", kk.key, jsonOf(was), jsonOf(now)))
+		}
+	}
+	bf, err := DumpFeed(a1, 0, false)
+	if err != nil || jsonOf(bf) != jsonOf(post.Backfill) {
+		bad([]string{"C13", "C09"}, "backfill", fmt.Sprintf("Dump backfill differs after close + reopen (err=%v):\nbefore: %s\nafter:  %s", err, jsonOf(post.Backfill), jsonOf(bf)))
+	}
+	// a pending expiry must be armed again by the reopen itself (C14: "including after the bucket is reopened")
+	var minExp uint32
+	for _, r := range d.Docs {
+		if r.HasValue && r.Exp > 0 && (minExp == 0 || r.Exp < minExp) {
+			minExp = r.Exp
+		}
+	}
+	next, has := rosmar.VerifExpiryState(w.H[0])
+	if minExp > 0 && (!has || next == 0 || next > minExp) {
+		bad([]string{"C14"}, "rearm", fmt.Sprintf("earliest stored expiry is %d but after reopen the expiry timer is armed=%v for %d", minExp, has, next))
+	}
+	return vs
+}
+
+func jsonOf(v any) string {
+	b, _ := json.Marshal(v)
+	return string(b)
+}
